@@ -11,6 +11,7 @@ import time as _real_time_module
 
 from . import core
 from . import dfudev
+from . import realfs
 from .dfudev import PAGE, VARIANTS, FLASH_BASE
 
 _dfu = None
@@ -20,17 +21,12 @@ ANNOUNCEMENT = None      # learned: last stdout line of a fault-free successful 
 
 
 def parent_init(tier, seed):
-    global _tmpdir
-    base = '/dev/shm' if os.path.isdir('/dev/shm') and os.access('/dev/shm', os.W_OK) else None
-    _tmpdir = tempfile.mkdtemp(prefix='bbverif-dfu-', dir=base)
+    _ensure_tmpdir()
     worker_init()
 
 
 def parent_fini():
-    global _tmpdir
-    if _tmpdir and os.path.isdir(_tmpdir):
-        shutil.rmtree(_tmpdir, ignore_errors=True)
-    _tmpdir = None
+    realfs.cleanup_base()
 
 
 def worker_init():
@@ -44,12 +40,7 @@ def worker_init():
         _dfu = dfu
         for name in ('sleep', 'time', 'monotonic', 'perf_counter', 'monotonic_ns', 'perf_counter_ns', 'time_ns'):
             _real_time_attrs[name] = getattr(_real_time_module, name)
-    if _tmpdir is None or not os.path.isdir(_tmpdir):
-        # replay / single-process use
-        base = '/dev/shm' if os.path.isdir('/dev/shm') and os.access('/dev/shm', os.W_OK) else None
-        _tmpdir = tempfile.mkdtemp(prefix='bbverif-dfu-', dir=base)
-        import atexit
-        atexit.register(shutil.rmtree, _tmpdir, True)
+    _ensure_tmpdir()
     if ANNOUNCEMENT is None:
         out = execute({'variant': '4', 'fw': {'len': 10, 'kind': 'random', 'seed': 1},
                        'init': {'kind': 'ff', 'seed': 0}, 'sched': {}}, core.Result(), core.EventLog())
@@ -61,12 +52,11 @@ def worker_init():
 
 
 def _ensure_tmpdir():
+    """The firmware image is a real file (dfu.py may open it however it likes) in the run's private scratch directory,
+    created once by the parent, inherited by forked workers, removed by the creating process."""
     global _tmpdir
     if _tmpdir is None or not os.path.isdir(_tmpdir):
-        base = '/dev/shm' if os.path.isdir('/dev/shm') and os.access('/dev/shm', os.W_OK) else None
-        _tmpdir = tempfile.mkdtemp(prefix='bbverif-dfu-', dir=base)
-        import atexit
-        atexit.register(shutil.rmtree, _tmpdir, True)
+        _tmpdir = realfs.base_dir()
 
 
 def firmware_bytes(fw):
@@ -76,6 +66,9 @@ def firmware_bytes(fw):
     if kind == 'ff':
         return b'\xff' * n
     r = random.Random(seed)
+    if kind == 'tail':
+        head = max(0, min(n, fw.get('head', n)))
+        return r.randbytes(head) + bytes([fw.get('fill', 255)]) * (n - head)
     if kind == 'mixed':
         out = bytearray()
         while len(out) < n:
